@@ -19,6 +19,7 @@ import IsoVerif.Driver.C12
 import IsoVerif.Driver.C07
 import IsoVerif.Driver.C11
 import IsoVerif.Driver.C01
+import IsoVerif.Driver.C04
 
 namespace IsoVerif.Driver
 
@@ -46,5 +47,6 @@ def allOps : List (String × Handler) :=
   ++ prefixOps "C07" C07.ops
   ++ prefixOps "C11" C11.ops
   ++ prefixOps "C01" C01.ops
+  ++ prefixOps "C04" C04.ops
 
 end IsoVerif.Driver
